@@ -8,6 +8,7 @@ package main
 //   gosym list
 
 import (
+	"runtime/pprof"
 	"encoding/json"
 	"flag"
 	"fmt"
@@ -139,7 +140,13 @@ func cmdWorker(args []string) {
 	verbose := fs.Int("v", 0, "")
 	seed := fs.Int64("seed", 0, "")
 	deadlineS := fs.Int("deadline", 600, "seconds per harness")
+	prof := fs.String("cpuprofile", "", "")
 	fs.Parse(args)
+	if *prof != "" {
+		f, _ := os.Create(*prof)
+		pprof.StartCPUProfile(f)
+		defer pprof.StopCPUProfile()
+	}
 	loadKnownFindings()
 	checks := loadChecks()
 	c := checks[*prop]
